@@ -321,8 +321,9 @@ def fitness_crash(exc):
     vx.prove(f"C09/fitness/later_pairs_not_run/{exc}", all(t[0] <= pid for t in log))
 
 
-def dask_replay(tier, seed, n):
-    """Concrete replay of crash points in the parallel path: the failure surfaces at the latest at .compute()/.load()."""
+def _dask_case(r, s, m):
+    """One crash point (run r, step s, model position m) in the parallel path, real dask (synchronous scheduler): returns
+    (the injected fault surfaced, what happened instead)."""
     import warnings
 
     import pyxel
@@ -330,38 +331,42 @@ def dask_replay(tier, seed, n):
     from pyxel.observation import Observation, ParameterValues
 
     warnings.filterwarnings("ignore")
+    pipe, layout = _pipeline(2)
+    marker_msg = "injected fault 0xC09"
+
+    def hook(d, tag, kwargs, rec):
+        if tag == 0:
+            d._memory["p"] = kwargs.get("p")
+        if d._memory.get("p") == [10, 20, 30][r] and d.pipeline_count == s and tag == m:
+            raise RuntimeError(marker_msg)
+
+    vxprobes.reset(hook)
+    obs = Observation(parameters=[ParameterValues(key="pipeline.photon_collection.m0.arguments.p", values=[10, 20, 30])],
+                      readout=Readout(times=[1.0, 2.0]), with_dask=True)
+    surfaced, silent = False, None
+    try:
+        import dask
+
+        with dask.config.set(scheduler="synchronous"):
+            dt = pyxel.run_mode(mode=obs, detector=make_ccd(2, 2), pipeline=pipe, with_inherited_coords=True)
+            dt.load()
+        silent = "result computed without error"
+    except Exception as e:  # noqa: BLE001
+        surfaced = marker_msg in (str(e) + repr(getattr(e, "__cause__", "")) + "".join(getattr(e, "__notes__", [])))
+        if not surfaced:
+            silent = "different error: " + repr(e)[:200]
+    finally:
+        vxprobes.reset(None)
+    return surfaced, silent
+
+
+def dask_replay(tier, seed, n):
+    """Concrete replay of crash points in the parallel path: the failure surfaces at the latest at .compute()/.load()."""
     obligations = []
     points = [(r, s, m) for r in range(3) for s in range(2) for m in range(2)]
     pts = [points[(seed + 5 * k) % len(points)] for k in range(n)]
     for (r, s, m) in pts:
-        pipe, layout = _pipeline(2)
-        marker_msg = "injected fault 0xC09"
-
-        def hook(d, tag, kwargs, rec, r=r, s=s, m=m):
-            if kwargs.get("p") == [10, 20, 30][r] or (tag != 0 and d._memory.get("p") == [10, 20, 30][r]):
-                pass
-            if tag == 0:
-                d._memory["p"] = kwargs.get("p")
-            if d._memory.get("p") == [10, 20, 30][r] and d.pipeline_count == s and tag == m:
-                raise RuntimeError(marker_msg)
-
-        vxprobes.reset(hook)
-        obs = Observation(parameters=[ParameterValues(key="pipeline.photon_collection.m0.arguments.p", values=[10, 20, 30])],
-                          readout=Readout(times=[1.0, 2.0]), with_dask=True)
-        surfaced, silent = False, None
-        try:
-            import dask
-
-            with dask.config.set(scheduler="synchronous"):
-                dt = pyxel.run_mode(mode=obs, detector=make_ccd(2, 2), pipeline=pipe, with_inherited_coords=True)
-                dt.load()
-            silent = "result computed without error"
-        except Exception as e:  # noqa: BLE001
-            surfaced = marker_msg in (str(e) + repr(getattr(e, "__cause__", "")) + "".join(getattr(e, "__notes__", [])))
-            if not surfaced:
-                silent = "different error: " + repr(e)[:200]
-        finally:
-            vxprobes.reset(None)
+        surfaced, silent = _dask_case(r, s, m)
         obligations.append({"id": f"C09/witness/dask/{r},{s},{m}", "verdict": "unsat" if surfaced else "sat", "info": {"silent": silent},
                             "model": {"run": r, "step": s, "pos": m}, "observed": {}})
     return {"obligations": obligations, "paths": len(pts), "reached": {o["id"]: 1 for o in obligations}}
@@ -488,5 +493,6 @@ def replay(oid, kwargs, model, data):
             bad = bad or any(x not in notes for x in shown)
         return bad, det
     if data["fn"] == "dask_replay":
-        return True, {"note": "concrete replay result (already executed on the real code)", **data.get("info", {})}
+        surfaced, silent = _dask_case(int(model["run"]), int(model["step"]), int(model["pos"]))
+        return (not surfaced), {"injected_fault_surfaced": surfaced, "instead": silent}
     return False, {}
